@@ -52,3 +52,27 @@ pub enum EndOfText {
     #[regex(r" +")]
     Space,
 }
+
+// Patterns that can never match behind a repetition: before dead-end pruning the automaton has non-accepting
+// states with self loops from which no accept is reachable; pruning must remove them (trim automaton, C02).
+#[derive(Logos, Debug, PartialEq)]
+#[logos(utf8 = false)]
+pub enum DeadCycle {
+    #[regex(r"[0-9]+(?-u:\b)[a-z]+")]
+    Never,
+    #[regex(r"[a-z]+")]
+    Word,
+    #[token(";")]
+    Semi,
+}
+
+#[derive(Logos, Debug, PartialEq)]
+#[logos(utf8 = false)]
+pub enum DeadChain {
+    #[regex(r"ab(?-u:\b)cd")]
+    Never,
+    #[regex(r"x+(?-u:\B) y*")]
+    NeverLoop,
+    #[regex(r"[0-9]+")]
+    Num,
+}
